@@ -719,6 +719,15 @@ def gen_gen_history(seed):
                 if rng.chance(0.1):
                     ops[-1]["fault"] = draw_fault(rng, 400)
                     have.discard(s)  # an interrupted feature pass leaves nothing to build a potential from
+                elif rng.chance(0.12):
+                    # a density far outside the interpolation range: the package rejects the feature
+                    # pass itself (RuntimeError); a caller that catches the error and asks for a
+                    # potential anyway must be refused, as a fresh generator refuses it
+                    ops[-1]["scale"] = rng.choice([1e4, 1e6, 1e8])
+                    ops[-1]["alias"] = None
+                    have.discard(s)
+                    if rng.chance(0.8):
+                        ops.append({"op": "pot", "spin": s, "v": rng.below(npool), "alias": None, "obj": ops[-1]["obj"], "after_rejection": True})
         return {"kind": "nldfgen", "params": p, "ops": ops, "nobj": nobj, "perturb": rng.choice(PERTURBS)}
     p = W.draw_sdmx_params(rng)
     p["nspin"] = rng.choice([1, 2])
@@ -796,6 +805,7 @@ def exec_nldfgen_history(hist, rp):
         return fresh[("p", i, j, s, mode)]
 
     gens = [gen] + [W._make_nldfgen(p)[3] for _ in range(int(hist.get("nobj", 1)) - 1)]
+    rejected = {}  # (object, spin) -> (density, mode, the fresh generator that rejected it too)
     last_rho = {}
     last_mode = {}
     work = {}  # (obj, spin, shape) -> the caller's persistent workspace array
@@ -836,6 +846,31 @@ def exec_nldfgen_history(hist, rp):
                 big = np.zeros((nrow + 2, ncol))
                 big[1 : nrow + 1] = arr
                 arr = big[1 : nrow + 1]
+            if op.get("scale"):
+                arr = rho_of(op["rho"], mode).copy() * float(op["scale"])
+                fg = fresh_gen()
+                try:
+                    fg.get_features(arr.copy(), spin=s, **KW[mode])
+                    fresh_rejects = False
+                except RuntimeError:
+                    fresh_rejects = True
+                last_rho.pop(sk, None)
+                last_mode.pop(sk, None)
+                if not fresh_rejects:
+                    stats["out_of_range_density_accepted_by_fresh_generator_not_judged"] += 1
+                    try:
+                        gen.get_features(arr.copy(), spin=s, **KW[mode])
+                    except Exception:
+                        pass
+                    continue
+                try:
+                    gen.get_features(arr.copy(), spin=s, **KW[mode])
+                    V("history_vs_fresh:LCAONLDFGenerator.get_features:accepts-what-fresh-objects-reject", "step %d: density x %g" % (step, op["scale"]))
+                    break
+                except RuntimeError:
+                    stats["feature_passes_rejected_by_the_package"] += 1
+                    rejected[sk] = (arr, mode, fg)
+                continue
             b = adigest(arr)
             inj = for_op(op)
             try:
@@ -863,6 +898,24 @@ def exec_nldfgen_history(hist, rp):
             if len(last_rho) > 1:
                 stats["spin_interleavings"] += 1
         else:
+            if sk in rejected and sk not in last_rho:
+                # a potential is asked for although the last feature pass of this spin was rejected
+                arr0, mode0, fg = rejected.pop(sk)
+                varr = v_of(op["v"], mode0).copy()
+                try:
+                    fg.get_potential(varr.copy(), spin=s, **KW[mode0])
+                    fresh_refuses = False
+                except Exception:
+                    fresh_refuses = True
+                try:
+                    gen.get_potential(varr.copy(), spin=s, **KW[mode0])
+                    answered = True
+                except Exception:
+                    answered = False
+                stats["potential_requests_after_rejected_feature_pass"] += 1
+                if fresh_refuses and answered:
+                    V("history_vs_fresh:LCAONLDFGenerator.get_potential:answers-what-fresh-objects-refuse", "step %d: the feature pass of spin %d was rejected, a fresh generator refuses the potential, the long-lived one returned numbers (of an earlier density)" % (step, s))
+                continue
             if sk not in last_rho:
                 continue
             mode = last_mode[sk]
